@@ -84,6 +84,7 @@ class PropertyRun:
             if 'thorough tier only' not in why:
                 self.unexpected_unreached.append(rep['function'] + rep.get('case', ''))
                 self.sampled_fallback(rep, contract)
+                self.witness_fallback(rep, contract)
             return
         for t in rep.get('trusted', []):
             self.trusted.add(t)
@@ -141,6 +142,26 @@ class PropertyRun:
                 self.failures.append(fail)
             else:
                 self.undecided.append({'obligation': ob['name'], 'function': rep['function'], 'reason': ob.get('reason', '')})
+
+    def witness_fallback(self, rep, contract):
+        """bounded stand-in for a function the verifier cannot reach: the fixed native witness programs recorded for the
+        contract's clauses are run against this tree"""
+        ws = getattr(contract, 'native_witness', None) if contract is not None else None
+        if not ws:
+            return
+        from .replay import run_witness
+        done = set()
+        for key, code in ws.items():
+            if id(code) in done or key in getattr(contract, 'fallback_skip', ()):
+                continue
+            done.add(id(code))
+            res = run_witness(code)
+            self.bounded.append(f"{rep['function']}: bounded stand-in — native witness program for `{key}`")
+            if res.get('violates'):
+                self.failures.append({'obligation': f"{rep['function']}.witness.{key}", 'function': rep['function'], 'path': '',
+                                      'inputs': {'native_witness': key}, 'replay': {'reproduced': True, 'observed': res},
+                                      'solver': {'backend': 'native-witness', 'verdict': 'the recorded witness program fails on this tree', 'output': ''}})
+                return
 
     def sampled_fallback(self, rep, contract):
         """bounded stand-in for a function the verifier cannot reach: run-time contract check on native samples"""
